@@ -100,8 +100,8 @@ def gen(args):
         t += 1
         # the tolerance only separates "on" from "below" the surface; the hull itself must not depend on it, also for
         # steep hulls (one hull dimension, targets in large units)
-        tol = float(rng.choice([1e-12, 1e-12, 1e-8, 1e-4, 1e-3]))
-        if d == 1 and rng.random() < 0.3:
+        tol = float(rng.choice([1e-12, 1e-12, 1e-8, 1e-3, 1e-3]))
+        if d == 1 and rng.random() < 0.5:
             P = P.copy(); P[:, 0] *= int(rng.choice([64, 1024]))
             queries = [(qy * 64, qx) for qy, qx in queries]
         base = fit_case(cid, "base", P, Hd, order, queries, s, tol)
